@@ -171,7 +171,10 @@ type errorExtra struct {
 // When debug is false, stack traces and file paths are omitted to avoid leaking
 // implementation details to clients.
 func buildErrorExtra(err error, debug bool) string {
-	errType := fmt.Sprintf("%T", err)
+	// Anything that is not a typed RPC/framework error is a RuntimeError on
+	// the wire (docs/guide/errors.md); a Go type name means nothing to the
+	// other language ports.
+	errType := "RuntimeError"
 
 	// Prefer the wire-stable class name for typed errors.
 	switch e := err.(type) {
